@@ -204,7 +204,7 @@ M("slice-missing", ["C11"], "slice treated as meet", ('        elif align != SVG
 M("viewbox-three-numbers-accepted", ["C11"], "an incomplete viewBox keeps its partial values", ("            except IndexError:\n                pass\n\n    def transform(self, element):", "            except IndexError:\n                self.width = self.width if self.width is not None else 100.0\n                self.height = self.height if self.height is not None else 100.0\n\n    def transform(self, element):"))
 M("scale-six-decimals", ["C11"], "scale printed with 6 decimals", ('                return "translate(%s, %s) scale(%s, %s)" % (\n                    Length.str(translate_x),\n                    Length.str(translate_y),\n                    Length.str(scale_x),\n                    Length.str(scale_y),', '                return "translate(%s, %s) scale(%s, %s)" % (\n                    Length.str(translate_x),\n                    Length.str(translate_y),\n                    "%.6f" % scale_x,\n                    "%.6f" % scale_y,'))
 M("svg-height-defaults-to-width", ["C11"], "missing height falls back to the viewBox width", ("                        height = s.viewbox.height if s.viewbox is not None else 1000", "                        height = s.viewbox.width if s.viewbox is not None else 1000"))
-M("nested-zero-returns-again", ["C11", "C10"], "a zero-sized nested svg ends the parse again", ("                            if context is None:\n                                return s  # The document itself is not rendered.", "                            if True:\n                                return s  # The document itself is not rendered."))
+M("nested-zero-returns-again", ["C11", "C10"], "a zero-sized nested svg ends the parse again", ("                                if context is None:\n                                    return s  # The document itself is not rendered.", "                                if True:\n                                    return s  # The document itself is not rendered."))
 
 # ---- lengths (C12) ---------------------------------------------------------------------------------------
 M("pc-is-12px", ["C12", "C04"], "pica resolved as 12 user units", ('        if self.units == "pc":\n            return self.amount * 16.0\n        if self.units == "em":', '        if self.units == "pc":\n            return self.amount * 12.0\n        if self.units == "em":'))
@@ -236,13 +236,13 @@ M("keyword-case-sensitive", ["C13"], "keywords only recognised in lower case", (
 M("viewport-not-restored", ["C03"], "the viewport size of a nested svg stays in force after it closes (the repaired defect)",
   ("                context, values, width, height = stack.pop()\n            elif event == \"start-ns\":", "                context, values, _w, _h = stack.pop()\n            elif event == \"start-ns\":"))
 M("svg-geometry-inherited", ["C03"], "x/y/width/height of an svg are handed down to its children (the repaired defect)",
-  ("                        SVG_ATTR_WIDTH,\n                        SVG_ATTR_HEIGHT,\n                    ):\n                        if attr in values:\n                            del values[attr]\n                    if context is None:", "                        SVG_ATTR_WIDTH,\n                        SVG_ATTR_HEIGHT,\n                    ):\n                        if attr in values and False:\n                            del values[attr]\n                    if context is None:"))
+  ("                            SVG_ATTR_WIDTH,\n                            SVG_ATTR_HEIGHT,\n                        ):\n                            if attr in values:\n                                del values[attr]\n                        if context is None:", "                            SVG_ATTR_WIDTH,\n                            SVG_ATTR_HEIGHT,\n                        ):\n                            if attr in values and False:\n                                del values[attr]\n                        if context is None:"))
 M("nested-svg-xy-ignored", ["C03"], "a nested svg without viewBox ignores x and y (the repaired defect)",
   ("                    elif context is not None and (s.x != 0 or s.y != 0):", "                    elif False:"))
 M("use-translate-before-transform", ["C03"], "use x/y translate is put in front of the inherited transform",
   ('                values[SVG_ATTR_TRANSFORM] = "%s translate(%s, %s)" % (\n                    values[SVG_ATTR_TRANSFORM],\n                    self.x,\n                    self.y,\n                )', '                values[SVG_ATTR_TRANSFORM] = "translate(%s, %s) %s" % (\n                    self.x,\n                    self.y,\n                    values[SVG_ATTR_TRANSFORM],\n                )'))
 M("defs-rendered", ["C03"], "content of defs is appended to the rendered tree",
-  ("                elif SVG_TAG_DEFS == tag:\n                    s = Group(values)\n                    context = s  # Non-Rendered", "                elif SVG_TAG_DEFS == tag:\n                    s = Group(values)\n                    if context is not None:\n                        context.append(s)\n                    context = s"))
+  ("                    elif SVG_TAG_DEFS == tag:\n                        s = Group(values)\n                        context = s  # Non-Rendered", "                    elif SVG_TAG_DEFS == tag:\n                        s = Group(values)\n                        if context is not None:\n                            context.append(s)\n                        context = s"))
 M("display-not-inherited", ["C03", "C14"], "display is treated as a non-inherited property: children of a display:none container are rendered",
   ("                    continue  # Values has a display=none. Do not render anything. No Shadow Dom.", "                    pass  # Values has a display=none. Do not render anything. No Shadow Dom."),
   ("                # Non-propagating values.\n", "                # Non-propagating values.\n                values.pop(SVG_ATTR_DISPLAY, None)\n"))
@@ -251,9 +251,9 @@ M("transform-prepended", ["C03"], "an element's transform is concatenated in fro
 M("line-y1-percent-of-width", ["C03"], "a line's y1 percentage is resolved against the viewport width",
   ("            self.y1 = self.y1.value(relative_length=height, **kwargs)", "            self.y1 = self.y1.value(relative_length=width, **kwargs)"))
 M("viewport-transform-before-own", ["C03"], "the viewport transform of an svg is applied outside its transform attribute",
-  ('                            values[SVG_ATTR_TRANSFORM] += " " + viewport_transform\n                        else:\n                            values[SVG_ATTR_TRANSFORM] = viewport_transform\n                        values["viewport_transform"]', '                            values[SVG_ATTR_TRANSFORM] = viewport_transform + " " + values[SVG_ATTR_TRANSFORM]\n                        else:\n                            values[SVG_ATTR_TRANSFORM] = viewport_transform\n                        values["viewport_transform"]'))
+  ('                                values[SVG_ATTR_TRANSFORM] += " " + viewport_transform\n                            else:\n                                values[SVG_ATTR_TRANSFORM] = viewport_transform\n                            values["viewport_transform"]', '                                values[SVG_ATTR_TRANSFORM] = viewport_transform + " " + values[SVG_ATTR_TRANSFORM]\n                            else:\n                                values[SVG_ATTR_TRANSFORM] = viewport_transform\n                            values["viewport_transform"]'))
 M("use-children-lose-ppi", ["C03"], "shapes are rendered with the default ppi",
-  ("                    s.render(ppi=ppi, width=width, height=height)\n                    if reify:\n                        s.reify()\n                    if s.is_degenerate():", "                    s.render(ppi=DEFAULT_PPI, width=width, height=height)\n                    if reify:\n                        s.reify()\n                    if s.is_degenerate():"))
+  ("                        s.render(ppi=ppi, width=width, height=height)\n                        if reify:\n                            s.reify()\n                        if s.is_degenerate():", "                        s.render(ppi=DEFAULT_PPI, width=width, height=height)\n                        if reify:\n                            s.reify()\n                        if s.is_degenerate():"))
 M("rect-reify-skips-radii", ["C03", "C02"], "Rect.reify forgets to scale the corner radii",
   ("            self.rx = scale_x * self.rx\n            self.ry = scale_y * self.ry\n            self.width = scale_x * self.width", "            self.width = scale_x * self.width"))
 M("circle-percent-per-axis", ["C03"], "circle r percent resolved per axis again (the repaired defect)",
@@ -349,3 +349,19 @@ M("writer-par-dropped", ["C20"], "preserveAspectRatio of a built svg is not writ
   ("            if node.viewbox.preserve_aspect_ratio is not None:\n                # The viewport", "            if False:\n                # The viewport"))
 M("stroke-width-percent-unnormalised", ["C14"], "percent stroke width against the un-normalised diagonal (the repaired defect)",
   ("                relative_length=sqrt((width * width + height * height) / 2.0),", "                relative_length=sqrt(width * width + height * height),"))
+
+# ---- added after the second seeding round ---------------------------------------------------------------------
+M("lexer-accepts-infinite-literal", ["C09"], "1e999 is accepted as a coordinate (the repaired defect)",
+  ('            if value in (float("inf"), float("-inf")):\n                # A literal such as 1e999', '            if False:\n                # A literal such as 1e999'))
+M("arc-radius-underflow-divides", ["C09"], "radii whose square underflows divide by zero again (the repaired defect)",
+  ("        if rx_sq == 0 or ry_sq == 0:\n            # A radius whose square underflows", "        if False:\n            # A radius whose square underflows"))
+M("arc-overflow-stores-nan", ["C09"], "overflowing arc parameters are stored as NaN (the repaired defect)",
+  ("            if value != value or value in (float(\"inf\"), float(\"-inf\")):\n                # Radii or a chord", "            if False:\n                # Radii or a chord"))
+M("validate-subpath-aliases-move", ["C02", "C17"], "a close re-validated after a join shares the Point object of its move",
+  ("self._segments[j].end = Point(move_search.end)", "self._segments[j].end = move_search.end"))
+M("use-select-skips-use", ["C08"], "a use does not descend into a directly nested use when collecting boxes (no-conditional branch of Use.select)",
+  ('        u = Use(self)\n        u.extend(map(copy, self))\n        return u\n\n    def select(self, conditional=None):\n        """\n        Finds all flattened subobjects of this group for which the conditional returns\n        true.\n\n        :param conditional: function taking element and returns True to include or False if exclude\n        """\n        if conditional is None:\n            for subitem in self:\n                yield subitem\n                if isinstance(subitem, (Group, Use)):', '        u = Use(self)\n        u.extend(map(copy, self))\n        return u\n\n    def select(self, conditional=None):\n        """\n        Finds all flattened subobjects of this group for which the conditional returns\n        true.\n\n        :param conditional: function taking element and returns True to include or False if exclude\n        """\n        if conditional is None:\n            for subitem in self:\n                yield subitem\n                if isinstance(subitem, Group):'))
+M("arc-reverse-skips-zero-sweep", ["C16"], "Arc.reverse leaves a zero-sweep (zero-radius) arc as it is",
+  ("    def reverse(self):\n        PathSegment.reverse(self)\n        self.sweep = -self.sweep", "    def reverse(self):\n        if self.sweep == 0:\n            return\n        PathSegment.reverse(self)\n        self.sweep = -self.sweep"))
+M("text-guard-removed", ["C10"], "a text element in error aborts the parse again (the repaired defect)",
+  ("                        s = None  # The element is in error and is not rendered.", "                        raise e"))
